@@ -50,6 +50,12 @@ def do_call_(ip, e, st):
             pos = []
             for idx, v in enumerate(vals[:len(pos_exprs)]):
                 if idx in splice:
+                    if isinstance(v, Ref) and type(s2.heap.get(v.cid)).__name__ == "IterCell":
+                        from .lib_graph import concrete_iter_items      # f(*iter(<tuple>)): the remaining items, consumed
+                        its = concrete_iter_items(ip, s2, v)
+                        if its is None:
+                            raise U("*args from an iterator whose items are not known")
+                        v = Tup(its)
                     view = ip.as_view(s2, v)
                     if view.items is None:
                         if isinstance(f, Fun) and f.kind == "lib" and getattr(f.impl, "star_view", False) and len(pos_exprs) == 1:
@@ -66,6 +72,13 @@ def do_call_(ip, e, st):
                             continue
                         if isinstance(f, Opaque) and f.sort == "Obj" and len(pos_exprs) == 1 and not e.keywords:
                             # an abstract callable applied to *xs: a function of the callable and the argument sequence
+                            from .lib_flow import StarArgs
+                            pos.append(StarArgs(v))
+                            continue
+                        if isinstance(f, Fun) and f.kind == "method" and f.name == "format" and len(pos_exprs) == 1 \
+                                and not e.keywords and ip.c is not None and ip.c.ghost.get("str_format_abstract") \
+                                and (isinstance(f.recv, Str) or (isinstance(f.recv, Opaque) and f.recv.sort == "Key")):
+                            # fmt.format(*xs) under the abstract model of str.format (pyvc/lib_fmt.py)
                             from .lib_flow import StarArgs
                             pos.append(StarArgs(v))
                             continue
@@ -149,6 +162,10 @@ def call_value(ip, st, f, pos, kws, node=None):
         c = ip.contracts.find(f.name, f.mod.relpath)
         if c is not None:
             return apply_contract(ip, st, c, pos, kws)
+        ov = (ip.c.ghost.get("assumed_callees") if ip.c is not None else None) or {}
+        if f.name in ov and ov[f.name].file == f.mod.relpath and st.depth == 0:
+            # a helper that has no registered contract but an assumed one inside THIS unit (see apply_contract)
+            return apply_contract(ip, st, ov[f.name], pos, kws)
         # a module-level helper without a contract: executed in place from its real AST (not modular; listed in the
         # evidence as an inlined helper); generators and recursion are refused
         c = auto_inline_contract(ip, f.mod.relpath, f.name)
@@ -203,9 +220,16 @@ def inline_lambda(ip, st, f, pos, kws):
     s2 = st.copy()
     s2.env = env
     outs = []
-    for s3, v in ip.ev(f.node.body, s2):
-        s3.env = dict(saved)
-        outs.append((s3, v))
+    # a lambda called from an inlined helper of ANOTHER module still resolves its global names in its own module
+    saved_mod = ip.mod
+    if getattr(f, "defmod", None) is not None:
+        ip.mod = f.defmod
+    try:
+        for s3, v in ip.ev(f.node.body, s2):
+            s3.env = dict(saved)
+            outs.append((s3, v))
+    finally:
+        ip.mod = saved_mod
     return outs
 
 
@@ -353,6 +377,16 @@ def conform(ip, st, v, ty):
             return v
         if isinstance(v, View) and getattr(v, "term", None) is not None and v.term.sort == sort:
             return v
+        if isinstance(v, Ref) and type(st.heap[v.cid]).__name__ == "KeyMapCell" and len(v.path) == 1 and ip.deref(st, v).sort == sort:
+            # a list stored in a dict of lists (m[k]) handed to a callee: its content now (a snapshot; a callee that changes
+            # its argument would have to say so in `modifies`, which is not supported for such an argument)
+            return ip.lst_view(ip.deref(st, v))
+        _src = ip.deref(st, v) if isinstance(v, Ref) and isinstance(st.heap[v.cid], LstCell) else getattr(v, "term", None) if isinstance(v, View) else None
+        if _src is not None and ip.reg.is_lst(_src.sort) and args[0] != "Val" and \
+                (ip.reg.lst_elem[_src.sort] in ("Int", "Real", "Bool")) != (ip.reg.lst_elem[sort] in ("Int", "Real", "Bool")):
+            # a list of numbers is no list of abstract values / objects and vice versa (== between them is not modelled):
+            # this case does not fit, another one may (case selection goes on instead of ending out-of-subset)
+            raise Mismatch(ty)
         if args[0] == "Val":
             # a list of strings where a list of context values is expected: the strings embedded by key_as_val
             # (a canonical list term: the same strings give the same term)
@@ -368,14 +402,29 @@ def conform(ip, st, v, ty):
         if ip.is_seq(st, v):
             # materialise: fresh list term equal to the view pointwise
             view = ip.as_view(st, v)
+            have = getattr(view, "term", None)
+            if have is not None and ip.reg.is_lst(have.sort) and {ip.reg.lst_elem[have.sort], ip.reg.lst_elem[sort]} != {"Int", "Real"} \
+                    and ip.reg.lst_elem[have.sort] != ip.reg.lst_elem[sort]:
+                raise Mismatch(ty)          # a list of another element sort (numbers / flow values / objects): another case may fit
             if view.items is not None and ip.reg.lst_elem[sort] in ("Int", "Real", "Bool") \
                     and any(not isinstance(x, (Num, Bool)) for x in view.items):
                 raise Mismatch(ty)          # a list of lists / objects is not a list of numbers (another case may fit)
+            if view.items is not None and ip.reg.is_lst(ip.reg.lst_elem[sort]):
+                # a display of lists: every item must itself fit the element type (a row of flow values is no row of numbers)
+                for x in view.items:
+                    conform(ip, st, x, args[0])
             t = materialise(ip, st, view, sort)
             return ip.lst_view(t)
         raise Mismatch(ty)
+    if head == "IterLst":
+        if isinstance(v, Ref) and not v.path and type(st.heap[v.cid]).__name__ == "IterLstCell":
+            return v
+        raise Mismatch(ty)
     if head == "PyList":
         if isinstance(v, Ref) and isinstance(st.heap[v.cid], PyListCell) and len(st.heap[v.cid].items) == int(args[0]):
+            if any("IterLst[" in a for a in args[1:]):
+                for k, x in enumerate(st.heap[v.cid].items):      # (a display of lists of generators: item by item)
+                    conform(ip, st, x, args[1 + k] if len(args) == int(args[0]) + 1 and int(args[0]) > 1 else args[1])
             return v
         if isinstance(v, Tup) and len(v.items) == int(args[0]):
             return v
@@ -403,10 +452,33 @@ def conform(ip, st, v, ty):
                 for f, fty in want.fields.items():
                     if f in have.fields and have.fields[f].replace(" ", "") != fty.replace(" ", ""):
                         raise Mismatch("%s: field %s is %s in %s" % (ty, f, have.fields[f], have.name))
+                    if f not in have.fields and fty.replace(" ", "").split("[")[0] in ("IterLst", "PyList") \
+                            and "IterLst[" in fty and f in st.heap[v.cid].fields:
+                        # a field the object's own spec does not type, declared by the wanted view as a list of generators
+                        # (pyvc/lib_sib.py) or a display of such lists: decided by the value the field holds
+                        conform(ip, st, st.heap[v.cid].fields[f], fty)
             return v
         raise Mismatch(ty)
     if head == "Fn":
         if isinstance(v, Fun) or (isinstance(v, Opaque) and v.sort == "Obj"):
+            return v
+        raise Mismatch(ty)
+    if head == "OpaqueFn":
+        if isinstance(v, Fun):
+            return v          # (what is known about the callable is kept)
+        raise Mismatch(ty)
+    if head == "Def":
+        # a parameter declared to hold THAT module-level function of the repository: the argument must be it
+        modname, _, attr = args[0].strip().rpartition(".")
+        want = ip.world.module_attr(modname, attr, ip)
+        if isinstance(v, Fun) and isinstance(want, Fun) and v.kind == want.kind and (
+                (v.kind == "contract" and v.contract is want.contract) or
+                (v.kind == "moddef" and v.name == want.name and v.mod is want.mod)):
+            return v
+        raise Mismatch(ty)
+    if head == "Lib":
+        # a parameter that is a particular library / assumed user function: only that very function fits
+        if isinstance(v, Fun) and v.kind == "lib" and getattr(v, "name", None) == args[0]:
             return v
         raise Mismatch(ty)
     if head in ("Tree", "KeySet", "TreeMap"):
@@ -527,11 +599,28 @@ def select_case(ip, st, c, args, kws):
     last = None
     for case in c.cases:
         try:
-            bind_contract_args(ip, st, case, args, kws, dry=True)
+            env = bind_contract_args(ip, st, case, args, kws, dry=True)
+            if c.ghost.get("select_by_requires") and case.requires and requires_refuted(ip, st, case, env):
+                # opt-in (contracts/P_hist2.py graph.__init__): cases of the same typing that differ by a precondition
+                # (which names are error names).  Every case whose types fit and whose precondition holds is applicable;
+                # one whose precondition is refuted on this path is passed over instead of failing the call.
+                last = Mismatch("precondition of %s refuted at the call" % case.name)
+                continue
             return case
         except Mismatch as m:
             last = m
     raise U("no contract case of %s accepts the arguments (%s)" % (c.name, last))
+
+
+def requires_refuted(ip, st, case, env):
+    for r in case.requires:
+        try:
+            t = eval_spec(ip, st, env, r)
+        except Exception:
+            continue
+        if t.s == "false" or ip.known(st, NOT(t)):
+            return True
+    return False
 
 
 def conform_arg(ip, st, v, ty, dry):
@@ -675,6 +764,9 @@ def havoc_value(ip, st, v, name, deep=True):
     if isinstance(v, Ref) and type(st.heap[v.cid]).__name__ == "KeyMapCell":
         from .keymap import km_havoc
         return km_havoc(ip, st, Ref(v.cid), name)
+    if isinstance(v, Ref) and type(st.heap[v.cid]).__name__ == "IterLstCell" and not v.path:
+        from .lib_sib import havoc_iterlst       # a list of generators: unknown generators at unknown positions
+        return havoc_iterlst(ip, st, v, name)
     if isinstance(v, Ref):
         cell = st.heap[v.cid]
         if isinstance(cell, LstCell):
@@ -737,15 +829,29 @@ def apply_contract(ip, st, c, args, kws):
         if not c.trusted:
             raise U("assumed_callees: the contract of %s must be trusted=True" % c.qual)
         ip.assumptions.add("assumed callee contract inside %s: %s (%s)" % (ip.c.name, c.name, c.notes or "no notes"))
+    if ip.c is not None and c.qual in (ip.c.ghost.get("inline_callees") or ()) and not ip.spec_mode:
+        # Contract(ghost={"inline_callees": [qualname, ..]}): inside THIS unit the callee is executed in place from its real
+        # AST instead of being replaced by its contract (nothing is assumed about it; its loops must unroll)
+        return inline_contract(ip, st, c, args, kws)
     if c.inline:
         if c.qual in ("get_data_context", "get_context", "get_data") and c.file.endswith("flow/functions.py") \
                 and len(args) == 1 and isinstance(args[0], Opaque) and args[0].sort == "V":
+            if getattr(ip, "item_eval", 0) and c.qual != "get_data_context":
+                from .lib import get_part_value_level          # inside a comprehension item: the part as a value, no fork
+                return get_part_value_level(ip, st, args[0], c.qual)
             from .lib import lib_get_data_context_v
             outs = lib_get_data_context_v(ip, st, args, kws)
             if c.qual == "get_data_context":
                 return outs
             return [(s2, pair.items[0] if c.qual == "get_data" else pair.items[1]) for s2, pair in outs]
         return inline_contract(ip, st, c, args, kws)
+    if ip.c is not None and not ip.spec_mode and c.qual in getattr(ip.c, "at_call", {}) and st.depth == 0:
+        # Contract(at_call={"<qualname of a repository function>": [clauses]}): obligations at every call of that function
+        # made by the function under proof (call_args[i]: the positional arguments as passed)
+        aenv = dict(ip.spec_env(st))
+        aenv["call_args"] = Tup(list(args))
+        for k, cl in enumerate(ip.c.at_call[c.qual]):
+            ip.emit("call-site", "at-call %s#%d" % (c.qual, k), st, eval_spec(ip, st, aenv, cl, old=ip.entry), {"clause": cl})
     case = select_case(ip, st, c, args, kws)
     try:
         env = bind_contract_args(ip, st, case, args, kws)
@@ -765,6 +871,18 @@ def apply_contract(ip, st, c, args, kws):
         goal = eval_spec(ip, st, env, r)
         ip.emit("pre-call", "call %s: requires#%d" % (case.name, k), st, goal)
         st.assume(goal)
+    # the callee is verified under the object invariant of the view its `self` is typed with: the caller owes it
+    inv_self = None
+    if case.params and not c.qual.endswith("__init__") and case.self_class != "static" and not ip.spec_mode:
+        for pname, pty in case.params.items():
+            ty = pty.strip()
+            if ty.startswith(("Self[", "Inst[")) and isinstance(env.get(pname), Ref):
+                cs_view = ip.contracts.classes.get(ty[ty.index("[") + 1:ty.rindex("]")].strip())
+                if cs_view is not None and cs_view.invariant:
+                    for k, inv in enumerate(cs_view.invariant):
+                        goal = eval_spec(ip, st, {"self": env[pname]}, inv)
+                        ip.emit("pre-call", "call %s: object invariant#%d of the view %s (%s)" % (case.name, k, cs_view.name, pname),
+                                st, goal)
     old = st.copy()
     old.env = dict(env)
     outs = []
@@ -787,6 +905,11 @@ def apply_contract(ip, st, c, args, kws):
         if ct.s != "false":
             if ip.spec_mode:
                 pass
+            elif getattr(ip, "bound_guards", None):
+                # the call is part of an ITEM of all(...) / any(...) over a sequence of symbolic length (no path per item
+                # there): that no item raises is an obligation, closed over the item index (vmembers.emit_closed)
+                from .vmembers import emit_closed
+                emit_closed(ip, "safety", "call %s for an item of a quantified sequence: does not raise %s" % (case.name, exc), st, NOT(ct))
             else:
                 bad = st.fork(ct, "!%s." % exc)
                 benv = dict(env)
@@ -989,7 +1112,16 @@ def do_havoc(ip, st, case, env):
                         cs2 = ip.contracts.classes.get(sty[sty.index("[") + 1:sty.rindex("]")].strip())
                         if cs2 is not None and field in cs2.fields:
                             cs = cs2
-                if cs is not None and field in cs.fields:
+                if cs is not None and field in cs.fields and cs.fields[field].startswith("MethodOf["):
+                    # declared as a bound method of the abstract element held by another field: that, if the object has
+                    # such an element at this point; else a value nothing is known about (a clause of the callee may bind it)
+                    a_, m_ = [x.strip() for x in cs.fields[field][9:-1].split(",")]
+                    el_ = cell.fields.get(a_)
+                    if isinstance(el_, Opaque) and el_.sort == "Obj":
+                        nv = Fun("elem-method", elem=el_, name=m_)
+                    else:
+                        nv = Opaque(ip.reg.new("%s.%s" % (cell.cls, field), "Unk"))
+                elif cs is not None and field in cs.fields:
                     nv = ip.make(cs.fields[field], "%s.%s" % (cell.cls, field), st)
                 else:
                     nv = Opaque(ip.reg.new("%s.%s" % (cell.cls, field), "Unk"))     # a value nothing is known about
@@ -1123,6 +1255,11 @@ def elem_call(ip, st, el, meth, pos, kws):
             r = abstract_call_on_list(ip, st, el, pos[0])
             if r is not None:
                 return r
+        if len(pos) == 1 and not kws:
+            from .lib_ctxcall import call_on_context          # c(x) for a context value x (pyvc/lib_ctxcall.py)
+            r = call_on_context(ip, st, el, pos[0])
+            if r is not None:
+                return r
         raise U("element call with arguments %r" % (pos,))
     if meth == "run":
         flow = pos[0]
@@ -1199,6 +1336,13 @@ def elem_call(ip, st, el, meth, pos, kws):
         return [(st, res)]
     if meth == "fill_into":
         raise U("fill_into on abstract element")
+    if len(pos) == 1 and not kws and meth.isidentifier() and isinstance(pos[0], Opaque) and pos[0].sort == "Obj":
+        # a one-argument method of a user object applied to an abstract OBJECT (a hook such as el.alter_sequence(el)): an
+        # abstract object that is a function of the two (no side effect, does not raise: listed as an assumption)
+        ip.assumptions.add("a method of a user element applied to an abstract object returns an object that is a function of "
+                           "the element and the argument, without side effect (el_mo_%s)" % meth)
+        f = reg.ufun("el_mo_" + meth, ["Obj", "Obj"], "Obj")
+        return [(st, Opaque(T("(%s %s %s)" % (f, el.t.s, pos[0].t.s), "Obj")))]
     if len(pos) == 1 and not kws and meth.isidentifier():
         # any other one-argument method of a user object on a flow value: a pure function of the object and the value
         v = as_flow_value(ip, st, pos[0])
